@@ -982,12 +982,19 @@ def parse_tree_to_objgraph(
 
                     for m in models:
                         for _, _, delayed in m._tx_reference_resolver.delayed_crossrefs:
-                            line, col = parser.pos_to_linecol(delayed.position)
+                            # The position belongs to the text of the model
+                            # (file) that contains the reference.
+                            line, col = m._tx_reference_resolver.parser.pos_to_linecol(
+                                delayed.position
+                            )
+                            filename = m._tx_filename
                             error_text += (
                                 f' "{delayed.obj_name}" of class '
                                 f'"{delayed.cls.__name__}" at {(line, col)}'
                             )
-                    raise TextXSemanticError(error_text, line=line, col=col)
+                    raise TextXSemanticError(
+                        error_text, line=line, col=col, filename=filename
+                    )
 
                 for m in models:
                     assert not m._tx_reference_resolver.parser._inst_stack
